@@ -231,9 +231,10 @@ def check_count_cycles(i0: int, i1: int, i2: int, i3: int, i4: int, i5: int, i6:
 
 
 # ---- native warm-up / smoke test --------------------------------------------------------------
-assert history_ok([0, 2, 1], [[0, 1], [0, 1], [0, 1]]) in (True, False)
-assert check_callsite(1, 2, 3, 1, 2, 3)
-assert check_count_cycles(1, 2, 2, 1, 1, 3, 0, 0)
+# warm-up only: results are not asserted here (a defect in lian must surface as a counterexample, not an import error)
+history_ok([0, 2, 1], [[0, 1], [0, 1], [0, 1]])
+check_callsite(1, 2, 3, 1, 2, 3)
+check_count_cycles(1, 2, 2, 1, 1, 3, 0, 0)
 
 
 def replay(func, cex):
